@@ -17,7 +17,7 @@ real trace.
 Out of the model (the property is labelled partial for these): chunked messages, the durable producer
 queue, controller restart / relocation, sequence-number exhaustion at MaxInt64.
 -/
-import GoaktVerif.Lemmas.C42.Progress
+import GoaktVerif.Lemmas.C42.Eventually
 
 namespace GoaktVerif.C42
 open GoaktVerif.Model.C42 GoaktVerif.Spec.C42
@@ -83,11 +83,30 @@ def C42_progress : Prop :=
 theorem C42_progress_holds : C42_progress := by
   intro window interval dc h1 h2 ss
   obtain ⟨m, i, j, k⟩ := run_inv3 _ _ ss (Inv.init window interval dc) (Inv2.init window interval dc h2) (Inv3.init window interval dc h1)
-  exact recover_progress _ m i j k
+  obtain ⟨a, b, c, _⟩ := recover_progress _ m i j k
+  exact ⟨a, b, c⟩
 
 /-- `recover` is an ordinary script of five steps -/
 theorem C42_recover_is_script (w : World) : ∃ ss : List Step, ss.length = 5 ∧ (w.run ss).1 = recover w :=
   recover_is_script w
+
+/-- "Every produced message is eventually confirmed", in the reachability form: from every reachable world
+    (any window the controller accepts, any script, i.e. after ANY history of losses, duplications and
+    reorderings) there EXISTS a finite continuation that drops and duplicates nothing and does not run the
+    producer endpoint (`quiet`: the endpoint would otherwise keep producing), after which every message the
+    producer controller has stored is confirmed: nothing new was stored, confirmedSeq = currentSeq, the
+    unconfirmed buffer is empty, the controller is alive.  The continuation repeats: `recover`, deliver the
+    re-sent oldest unconfirmed message, tick (re-tell), let the consumer endpoint work through its mailbox.
+    This is reachability (EF), not a temporal statement under a fairness assumption. -/
+def C42_eventually : Prop :=
+  ∀ (window interval : Nat) (dc : Bool), 1 ≤ window → window ≤ maxWindow → ∀ ss : List Step,
+    ∃ cont : List Step, cont.all quiet = true ∧
+      AllConfirmed ((World.init window interval dc).run ss).1 ((((World.init window interval dc).run ss).1).run cont).1
+
+theorem C42_eventually_holds : C42_eventually := by
+  intro window interval dc h1 h2 ss
+  obtain ⟨m, i, j, k⟩ := run_inv3 _ _ ss (Inv.init window interval dc) (Inv2.init window interval dc h2) (Inv3.init window interval dc h1)
+  exact eventually_confirmed _ _ ⟨⟨m, i⟩, j, k⟩ (Nat.le_refl _)
 
 /-- C42 as far as the model carries it (volatile, unchunked, no restart): safety for every fault schedule,
     neither controller ever fails, and the non-temporal progress statement -/
@@ -95,12 +114,12 @@ def C42_full : Prop :=
   C42_safety ∧
   (∀ (window interval : Nat) (dc : Bool), window ≤ maxWindow → ∀ ss : List Step,
     ((World.init window interval dc).run ss).1.p.failed = false ∧ ((World.init window interval dc).run ss).1.c.failed = false) ∧
-  C42_progress
+  C42_progress ∧ C42_eventually
 
 theorem C42_holds : C42_full :=
   ⟨C42_safety_holds,
    fun window interval dc hw ss => ⟨C42_producer_never_fails window interval dc hw ss, C42_consumer_never_fails window interval dc ss⟩,
-   C42_progress_holds⟩
+   C42_progress_holds, C42_eventually_holds⟩
 
 /-- TEST (evaluated): after a lost SequencedMessage, `recover` puts it back in flight -/
 example :
